@@ -203,10 +203,10 @@ def prog_has_plain_set(prog):
 # ------------------------------------------------------------------ generation
 
 @st.composite
-def tail_actions(draw, env):
+def tail_actions(draw, env, with_appendc=False):
     acts = []
     for _ in range(draw(st.integers(0, 2))):
-        a = draw(gen.action(env, allow=("hook", "hook", "assign", "finish")))
+        a = draw(gen.action(env, allow=("hook", "hook", "assign", "finish") + (("appendc",) if with_appendc else ())))
         if a is not None:
             acts.append(a)
             if a[0] == "finish":
@@ -215,9 +215,9 @@ def tail_actions(draw, env):
 
 
 @st.composite
-def eof_program(draw):
+def eof_program(draw, with_appendc=False):
     cfg = gen.GenConfig(max_depth=1, max_stmts=3, n_hooks=(1, 2), n_fcodes=(1, 2), n_strs=(0, 1), n_ints=(0, 1), wide_bytes=0.0,
-                        kinds={"finish": 0, "hook": 3, "appendc": 0, "wait": 0}, allow_greedy=False)
+                        kinds={"finish": 0, "hook": 3, "appendc": 1 if with_appendc else 0, "wait": 0}, allow_greedy=False)
     prog = draw(gen.program(cfg))
     env = gen.Env(prog, cfg)
     prefix = prog.body
@@ -225,8 +225,9 @@ def eof_program(draw):
     summ = ir.body_summary(prefix, [])
     if summ.tail or summ.nullable:
         prefix = prefix + (("match", ("lit", b";", "str")),)
-    shape = draw(st.sampled_from(["stmt", "cat", "case", "case-else", "wait", "try-case", "none", "none-open", "optional-end"]))
-    acts = draw(tail_actions(env))
+    shape = draw(st.sampled_from(["stmt", "cat", "case", "case-else", "wait", "try-case", "none", "none-open", "optional-end", "loop-case-end",
+                                  "loop-case-end", "try-open-regex"]))
+    acts = draw(tail_actions(env, with_appendc))
     if shape == "stmt":
         body = prefix + (("match", ("end",)),) + acts
     elif shape == "cat":
@@ -241,6 +242,20 @@ def eof_program(draw):
     elif shape == "try-case":
         handler = (("case", False, (((("end",),), None, acts), (("else",), None, (("wait", ("lit", b"!", "str")),) + draw(tail_actions(env))))),)
         body = (("try", ("nomatch",), prefix + (("match", ("lit", b"ok", "str")),), handler),)
+    elif shape == "loop-case-end":
+        # read bytes until the end of input: loop { case { end -> { break; } /./ (or else) -> {...} } }
+        arm_acts = draw(tail_actions(env))
+        arm_acts = tuple(a for a in arm_acts if a[0] != "finish")
+        if draw(st.booleans()):
+            other = ((("re", ("any",), False),), None, arm_acts)
+        else:
+            other = (("else",), None, (("match", ("re", ("any",), False)),) + arm_acts)
+        body = prefix + (("loop", None, (("case", False, (((("end",),), None, (("break", None),)), other)),)),) + acts
+    elif shape == "try-open-regex":
+        # a try body ending in a regex that ends on an inverted class, handler starting with `end`, then a statement outside the try
+        rgx = ("re", ("seq", (("lit", 0x61), ("op", ("set", (("c", 0x62),), True), "*"))), False)
+        handler = (("match", ("end",)),) + acts
+        body = prefix + (("try", ("nomatch",), (("match", rgx),), handler), ("match", ("lit", b"b", "str")), ("hook", prog.hooks[0]))
     elif shape == "none":
         body = prefix
     elif shape == "none-open":
